@@ -105,7 +105,7 @@ pub struct Runner<'a> {
 pub enum UnitEnd { Idle, Negative, Stalled, StreamEnded, Crashed, Panicked }
 
 impl<'a> Runner<'a> {
-    fn poll_ctls(&mut self) {
+    pub fn poll_ctls(&mut self) {
         let waker = Waker::from(self.flag.clone());
         let mut cx = Context::from_waker(&waker);
         for c in self.ctls.iter_mut() {
